@@ -86,13 +86,14 @@ package risor
 
 // applyOverrides: an undotted override name maps to the override value afterwards; no other name is added.
 //@ func (*Config).applyOverrides
-//@ props C11
+//@ props C11 C05
 //@ requires cfg != nil && cfg.globals != nil
 //@ havoc FromGoType resolveModule Override
 //@ modifies mapof(cfg.globals)
 //@ modcomps MD_string_object_Object MV_string_object_Object MD_string_int MV_string_int E_
 //@ assumeframe
 //@ invariant 1: len(names) == iter && (cap(names) == 0 || fresh(names)) && forall(j, 0, len(names), haskey(cfg.overrides, names[j]))
+//@ invariant[C05.overrides.sorted] 2: forall(a, 0, len(names), forall(b, a, len(names), names[a] <= names[b]))
 //@ invariant 2: cfg.globals != nil && forall(j, 0, len(names), haskey(cfg.overrides, names[j])) && forallA(k, string, haskey(cfg.globals, k) ==> old(haskey(cfg.globals, k)) || haskey(cfg.overrides, k))
 //@ ensures[C11.override.onlylisted] forallA(k, string, haskey(cfg.globals, k) ==> old(haskey(cfg.globals, k)) || haskey(cfg.overrides, k))
 
